@@ -1005,7 +1005,19 @@ func ruleR187(c *Ctx) {
 				k++
 				key := fmt.Sprintf("%s#Attr[%d]", declName(xa.ep, fd), k)
 				perMap, perEntry := false, ""
+				// facts, with boolean locals that are assigned once expanded: simple := x.isSimple && isXMLName(key)
+				var facts []Guard
 				for _, gd := range c.GuardsDeep(call) {
+					facts = append(facts, gd)
+					if id, ok := ast.Unparen(gd.Cond).(*ast.Ident); ok && !gd.Synth {
+						if v, ok := info.ObjectOf(id).(*types.Var); ok {
+							if rhs, ok := singleDefExpr[v]; ok {
+								expandGuard(rhs, gd.Val, &facts)
+							}
+						}
+					}
+				}
+				for _, gd := range facts {
 					if gd.Synth {
 						continue
 					}
